@@ -850,3 +850,9 @@ class SecureHomeKitConnection(HomeKitConnection):
 
         if self.owner:
             await self.owner.connection_made(True)
+
+        if not self.is_connected:
+            # The connection was lost while the owner was re-subscribing. The
+            # connector is still running at that point so nothing else would
+            # reconnect; fail the attempt so the reconnect loop carries on.
+            raise AccessoryDisconnectedError("Connection lost during session setup")
